@@ -37,15 +37,16 @@ type Scenario struct {
 
 // SchedOpts configure RunScenario.
 type SchedOpts struct {
-	Budget        time.Duration // per scenario, for the primary (DPOR) mode
-	Horizon       int
-	Fallback      []int // preemption bounds tried if DPOR does not finish
-	ForcePB       int   // >=0: skip DPOR and use this preemption bound (-1: DPOR)
-	SkipDPOR      bool  // go straight to the preemption bounds in Fallback
-	NoReplayCheck bool  // skip the per-scenario determinism replays (bulk single-run scenarios do their own sampling)
-	Wide          bool  // preemption-bounded search of this scenario is sliced over all worker processes
-	Deviations    int   // bound for cost-bearing data choices (-1 unbounded)
-	MaxExec       int64
+	Budget          time.Duration // per scenario, for the primary (DPOR) mode
+	Horizon         int
+	Fallback        []int // preemption bounds tried if DPOR does not finish
+	ForcePB         int   // >=0: skip DPOR and use this preemption bound (-1: DPOR)
+	SkipDPOR        bool  // go straight to the preemption bounds in Fallback
+	DefaultSchedule bool  // enumerate data choices only; threads follow the default schedule
+	NoReplayCheck   bool  // skip the per-scenario determinism replays (bulk single-run scenarios do their own sampling)
+	Wide            bool  // preemption-bounded search of this scenario is sliced over all worker processes
+	Deviations      int   // bound for cost-bearing data choices (-1 unbounded)
+	MaxExec         int64
 }
 
 // ResetGlobals brings process-wide state of the packages under test back to
@@ -146,7 +147,7 @@ func RunScenario(ctx *Ctx, rep *Report, sc *Scenario, o SchedOpts) {
 			return
 		}
 		body = mkBody()
-		e := vsched.Replay(vsched.Options{Horizon: o.Horizon, Trace: true, ExploreAll: false}, ctx.Replay.Choices, wrapped)
+		e := vsched.Replay(vsched.Options{Horizon: o.Horizon, Trace: true, ExploreAll: false, DefaultSchedule: o.DefaultSchedule}, ctx.Replay.Choices, wrapped)
 		issues := builtinIssues(sc, e)
 		ci, _ := check(e)
 		issues = append(issues, ci...)
@@ -158,7 +159,7 @@ func RunScenario(ctx *Ctx, rep *Report, sc *Scenario, o SchedOpts) {
 
 	outcomes := map[string]bool{}
 	run := func(mode vsched.Mode, pb int, deadline time.Time) *vsched.Stats {
-		vo := vsched.Options{Mode: mode, PreemptionBound: pb, DeviationBound: o.Deviations, Horizon: o.Horizon, Deadline: deadline, MaxExecutions: o.MaxExec}
+		vo := vsched.Options{Mode: mode, PreemptionBound: pb, DeviationBound: o.Deviations, Horizon: o.Horizon, Deadline: deadline, MaxExecutions: o.MaxExec, DefaultSchedule: o.DefaultSchedule}
 		if o.Wide && mode == vsched.ModePB && ctx.NShards > 1 {
 			vo.SliceDepth, vo.SliceIndex, vo.SliceCount = 40, ctx.Shard, ctx.NShards
 		}
@@ -192,7 +193,7 @@ func RunScenario(ctx *Ctx, rep *Report, sc *Scenario, o SchedOpts) {
 				var logs [2]string
 				for i := 0; i < 2; i++ {
 					body = mkBody()
-					re := vsched.Replay(vsched.Options{Horizon: o.Horizon, Trace: true}, ch, wrapped)
+					re := vsched.Replay(vsched.Options{Horizon: o.Horizon, Trace: true, DefaultSchedule: o.DefaultSchedule}, ch, wrapped)
 					logs[i] = strings.Join(re.Log, "\n")
 				}
 				if logs[0] != logs[1] {
@@ -214,7 +215,7 @@ func RunScenario(ctx *Ctx, rep *Report, sc *Scenario, o SchedOpts) {
 				var lastLog []string
 				for i := 0; i < 5; i++ {
 					body = mkBody()
-					re := vsched.Replay(vsched.Options{Horizon: o.Horizon, Trace: i == 0}, ch, wrapped)
+					re := vsched.Replay(vsched.Options{Horizon: o.Horizon, Trace: i == 0, DefaultSchedule: o.DefaultSchedule}, ch, wrapped)
 					ri := builtinIssues(sc, re)
 					ci2, _ := check(re)
 					ri = append(ri, ci2...)
